@@ -186,8 +186,12 @@ fn run_program(
                 })
                 .collect();
             let felts: Vec<Felt252> = args.iter().map(felt_of).collect();
-            let gases: Vec<usize> =
-                if j % 3 == 2 { vec![req + 2000 + (rng.below(30) as usize) * 100] } else { vec![ample] };
+            // gas ladder: ample / just above the declared entry cost / below it (the runner must refuse)
+            let gases: Vec<usize> = match j % 4 {
+                2 => vec![req + 2000 + (rng.below(30) as usize) * 100],
+                3 => vec![*rng.pick(&[0usize, req / 2, req.saturating_sub(1), req])],
+                _ => vec![ample],
+            };
             for g in gases {
                 let r = catch_unwind(AssertUnwindSafe(|| run_with_trace(&runner, b, func, &felts, Some(g))));
                 let mut ev = vec![json!({"e":"reset","prog": id,"fn": fi + 1,"g": g,
